@@ -36,7 +36,7 @@ Member(n, t, m, cap, vb, vs, js, pb, ps, jp, seed, label, rng) ==
   LET vals  == [j \in 1..m |-> Val(IF j = js THEN vs ELSE vb, n)]
       proms == [j \in 1..m |-> Prom(IF j = jp THEN ps ELSE pb, vals[j], n)]
   IN [n |-> n, t |-> t, m |-> m, cap |-> cap, vals |-> vals, proms |-> proms, seed |-> seed, label |-> label,
-      rng |-> rng, wit |-> NoWit, mut |-> NoMut, bseed |-> 0, rvar |-> 0, zb |-> 0,
+      rng |-> rng, wit |-> NoWit, mut |-> NoMut, bseed |-> 0, rvar |-> 0, zb |-> 0, ppg |-> 0, wshift |-> 0,
       v |-> [n |-> n, t |-> t, cap |-> cap, proms |-> proms, seed |-> seed, label |-> label, pgH |-> 0, pgG |-> 0,
              commit |-> "same", cj |-> 0]]
 Plain(n, t, m, cap, seed) == Member(n, t, m, cap, "mid", "mid", 0, "none", "none", 0, seed, 0, "chacha")
@@ -46,7 +46,8 @@ Plain(n, t, m, cap, seed) == Member(n, t, m, cap, "mid", "mid", 0, "none", "none
 \* `pair`: the harness also runs the unperturbed baseline verification first (C04 pairs); `first`: index of the first
 \* challenge drawn after the perturbed datum (0: none may change); `wdiff`: the batch-weight input must change (C08)
 ScenP(members, mode, skew, viabytes, fill, pair, first, wdiff) ==
-  [members |-> members, mode |-> mode, skew |-> skew, viabytes |-> viabytes, fill |-> fill, pair |-> pair, first |-> first, wdiff |-> wdiff]
+  [members |-> members, mode |-> mode, skew |-> skew, viabytes |-> viabytes, fill |-> fill, pair |-> pair, first |-> first, wdiff |-> wdiff,
+   samecommit |-> FALSE]
 ScenF(members, mode, skew, viabytes, fill) == ScenP(members, mode, skew, viabytes, fill, FALSE, 0, FALSE)
 Scen(members, mode, skew, viabytes) == ScenF(members, mode, skew, viabytes, <<>>)
 One(mb, mode) == Scen(<<mb>>, mode, <<0, 0, 0>>, FALSE)
@@ -225,8 +226,15 @@ FamHedge ==
             \cup { [a EXCEPT !.vals[j] = U64Dec(@)] : j \in 1..a.m }
             \cup { [a EXCEPT !.seed = 2, !.v.seed = 2] }
             \cup { [a EXCEPT !.rvar = 1] }          \* same inputs, a different external RNG stream (only distinguishable for "chacha")
+      \* two openings of the SAME commitments: degenerate blinding generators (G_2 := G_1, possible because the generator
+      \* record has public fields) and blindings (r_1 + 1, r_2 - 1); everything public is identical, only the witness differs
+      \* (the LAST generator duplicates the one before it and the last two blinding components move, so the first one
+      \* is untouched when the degree is 3 or more)
+      Dup(a, tt) == [a EXCEPT !.ppg = 100, !.v.pgG = 100, !.t = tt, !.v.t = tt]
+      SameC == { [Scen(<<Dup(a, tt), [Dup(a, tt) EXCEPT !.wshift = 1]>>, "VerifyOnly", NoSkew, FALSE) EXCEPT !.samecommit = TRUE] :
+                   a \in {a \in Base : a.t = 2 /\ (a.seed = 0 \/ a.m = 1)}, tt \in {2, 3, 6} }
   IN UNION { { Scen(<<a, b>>, "VerifyOnly", NoSkew, FALSE) : b \in {b \in Vary(a) : (b.seed = 0 \/ b.m = 1) /\ \A j \in 1..b.m : U64Le(PVal(b.proms[j]), b.vals[j])} } :
-             a \in {a \in Base : a.seed = 0 \/ a.m = 1} }
+             a \in {a \in Base : a.seed = 0 \/ a.m = 1} } \cup SameC
 
 (***************************************************************************************************)
 (* bind (C04, C08): an accepted triple and the same triple with exactly one datum perturbed          *)
@@ -301,5 +309,5 @@ VARIABLES pc, sc, i, proofs, res, masks, chunk
 INSTANCE BPPApi
 
 \* one line per terminal behaviour: the scenario and what the specification predicts
-Emit == Done => PrintT(<<"REPLAY", ToJson([family |-> Family, sc |-> sc, expect |-> Expect])>>)
+Emit == Done => PrintT(<<"REPLAY", ToJson([family |-> Family, sc |-> sc, expect |-> Expect, distinct |-> ExpectDistinct])>>)
 ====
